@@ -352,7 +352,7 @@ def run_runtime(res, tier, sc, drv):
     for fn, expect in TS_PROLOG_EXPECT.items():
         if bodies.get(fn) != expect:
             raise Inconclusive("the TypeScript prolog of %s changed (%r): the JS model of checks/c04.py no longer describes it" % (fn, bodies.get(fn)))
-    bounds = {"forks": 40, "steps": 20000, "paths": 400, "seconds": 120 if tier == "quick" else 900}
+    bounds = {"forks": 40, "steps": 20000, "paths": 400, "seconds": 120 if tier == "quick" else 300}
     obligations = discharged = 0
     details = {}
     t0 = time.time()
@@ -421,7 +421,7 @@ def run_runtime(res, tier, sc, drv):
         verdicts = []
         for w_ in wrong:
             t1 = time.time()
-            r, m = solve(pth.pc + [w_], 200 if tier == "quick" else 1200)
+            r, m = solve(pth.pc + [w_], 200 if tier == "quick" else 400)
             verdicts.append((r, m))
             details.setdefault("fromInt_query_s", []).append(round(time.time() - t1, 1))
         if all(r == "unsat" for r, _ in verdicts):
@@ -452,7 +452,13 @@ def run_runtime(res, tier, sc, drv):
                 bad = True
                 continue
             cond = p2.pc + ([p2.value.t != v] if p2.outcome == "return" else [])
-            r, m = solve(cond, 120 if tier == "quick" else 900)
+            r, m = solve(cond, 120 if tier == "quick" else 240)
+            if r == "unknown" and tier != "quick" and len(elems) == RT_MAX:
+                # the deepest length of the thorough tier is best effort: recorded, not claimed
+                details.setdefault("round_trip_undecided_at_max_length", 0)
+                details["round_trip_undecided_at_max_length"] += 1
+                bad = True
+                continue
             if r == "sat":
                 vv = m.eval(v, model_completion=True).as_signed_long()
                 res.violation("Str.toInt(Str.fromInt(%d)) %s under WebAssembly; TypeScript yields %d" % (vv, "is %s" % m.eval(p2.value.t, model_completion=True).as_signed_long() if p2.outcome == "return" else "traps", vv),
